@@ -224,7 +224,10 @@ def _parse_value_and_timestamp(s: str) -> Tuple[float, Optional[float]]:
     if not values:
         return float(s), None
     value = _parse_value(values[0])
-    timestamp = (_parse_value(values[-1]) / 1000) if len(values) > 1 else None
+    try:
+        timestamp = (_parse_value(values[-1]) / 1000) if len(values) > 1 else None
+    except OverflowError:
+        raise ValueError(f"Invalid timestamp: {values[-1]!r}")
     return value, timestamp
 
 
